@@ -2,9 +2,12 @@
 
 from __future__ import annotations
 
+import asyncio
 import math
 
 import anyio
+
+from .harness import Boom, classify
 
 
 def make_object(interp, name, kind, o):
@@ -18,10 +21,47 @@ def make_object(interp, name, kind, o):
             objs[c] = (snd if c.startswith("s") else rcv).clone()
         objs[name] = snd  # statistics handle
         return
+    if kind == "cache":
+        import anyio.functools as af
+
+        interp.invs = []
+        w = interp.w
+
+        async def fn(key):
+            n = len(interp.invs)
+            fut = w.loop.create_future()
+            interp.invs.append({"key": key, "fut": fut})
+            w.ev("inv", w.tname(), n, key)
+            try:
+                res = await fut
+            except BaseException as e:
+                w.ev("invx", n, classify(e))
+                raise
+            if res == "fail":
+                w.ev("invx", n, ["boom", f"f{n}"])
+                raise Boom(f"f{n}")
+            w.ev("invx", n, ["ok", f"v{n}"])
+            return f"v{n}"
+
+        ms = o.get("maxsize", 128)
+        objs[name] = af.lru_cache(maxsize=ms, typed=o.get("typed", False),
+                                  ttl=o.get("ttl"),
+                                  always_checkpoint=o.get("always_checkpoint", False))(fn)
+        return
     raise ValueError(f"unknown object kind {kind}")
 
 
 def env_action(interp, do):
+    k = do[0]
+    if k in ("complete", "fail"):
+        n = do[1]
+
+        def fn():
+            fut = interp.invs[n]["fut"]
+            if not fut.done():
+                fut.set_result("ok" if k == "complete" else "fail")
+
+        return fn, (lambda: n < len(getattr(interp, "invs", ())) and not interp.invs[n]["fut"].done())
     raise ValueError(f"unknown env action {do}")
 
 
@@ -34,6 +74,19 @@ async def run_op(interp, t, op, opid):
         return interp._sync(t, opid, "notify", [op[1], op[2]], lambda: objs[op[1]].notify(op[2]))
     if k == "notify_all":
         return interp._sync(t, opid, "notify_all", [op[1]], objs[op[1]].notify_all)
+    if k == "call":
+        w = interp.w
+        w.ev("b", t, opid, "call", [op[1], op[2]])
+        try:
+            r = await objs[op[1]](op[2])
+        except asyncio.CancelledError as e:
+            w.ev("e", t, opid, classify(e))
+            raise
+        except BaseException as e:
+            w.ev("e", t, opid, classify(e) + [repr(e)[:60]])
+            return None
+        w.ev("e", t, opid, ["ok", r])
+        return r
     if k == "send":
         return await interp._blocking(t, opid, "send", [op[1], op[2]], objs[op[1]].send(op[2]))
     if k == "send_nowait":
